@@ -112,6 +112,11 @@ def run(ctx, rep):
                 rep.add("R3", "panic-site:%s:%s@%s" % (short, cn.split("::")[-1], _nth(b, bb, cn.split("::")[-1])), False, b.where(bb),
                         "explicit failure construct %s in a function that holds the caller's I/O objects" % cn)
     r5(F, rep, "R5", scope)
+    r6(F, rep, "R6", root)
+    # R3 (non-generic part): every explicit failure construct mono-reachable from the reconstruction entry — the error
+    # conversions that `?` calls included — is a row of the reviewed table (same table as C01/A6)
+    from . import site
+    site.check_sites(F, rep, "R3", [root], 10)
     rep.floor("R1", "eof-probe", n_probe, 1)
     rep.floor("R2", "source-reads", n_read, 2)
     rep.floor("R2", "destination-writes", n_write, 2)
@@ -199,6 +204,53 @@ def r5(F, rep, rule, scope):
                     "local _%d: %s — %d propagated flush(es); result produced without a dominating successful flush at %s" % (l, ty, len(good_edges), bad[:3])
                     if bad else "local _%d: %s is flushed with `?` before every non-error result" % (l, ty))
     rep.stats["buffering_adaptors_in_scope"] = n_buf
+
+
+def r6(F, rep, rule, root):
+    """Crate-local Read/Write adapters between the caller's objects and the chunk logic.  An adapter's `write`/`read` may
+    forward to the inner object with a count-returning call (it has to), but then the count is the only truth about what
+    was transferred: any other use of the same buffer as data (hashing it, copying it, counting its length) must be limited
+    to `[..count]`.  Hashing the buffer that was *offered* goes wrong as soon as the destination accepts less."""
+    n = 0
+    seen = set()
+    for inst in F.instances_of(root):
+        for i in F.reach([inst["id"]]):
+            I = F.inst(i)
+            if not I.get("local"):
+                continue
+            m = re.match(r"^<(.*) as std::io::(Write|Read)>::(write|read)$", strip_generics(I["def"]) if I.get("def") else "")
+            if not m or I["def"] in seen:
+                continue
+            seen.add(I["def"])
+            b = F.bodies.get(I["def"])
+            if b is None:
+                continue
+            n += 1
+            short = I["def"].replace("preflate_rs::", "")
+            bad = []
+            for bb, t in b.calls():
+                c = t["callee"]
+                if c.get("trait") not in ("std::io::Write", "std::io::Read") or not COUNTED.match(c["def"].split("::")[-1]) or len(t["args"]) < 2:
+                    continue
+                buf_roots = set()
+                _roots_of(b, t["args"][1], buf_roots, set())
+                for ob, ot in b.calls():
+                    if ob == bb:
+                        continue
+                    for a in ot["args"]:
+                        rs = set()
+                        _roots_of(b, a, rs, set())
+                        if rs & buf_roots:
+                            ok2 = False
+                            if bb in b.reachable_from(ob) and ob != bb and not (ob in b.reachable_from(bb)):
+                                ok2 = False          # used before the transfer: cannot be limited by its count
+                            else:
+                                ok2, _why = _buffer_bounded_by_count(b, bb, t)
+                            if not ok2:
+                                bad.append("%s gets the whole buffer (%s)" % (strip_generics(callee_def(ot)).split("::")[-1], b.where(ob)))
+            rep.add(rule, "adapter-buffer-uses-limited-by-count:%s" % short, not bad, "%s:%s" % (b.file, b.line),
+                    "; ".join(sorted(set(bad))[:3]) if bad else "forwards to the inner object and touches the buffer nowhere else")
+    rep.add(rule, "io-adapters-examined", True, "", "%d crate-local Read/Write adapter method(s) reachable from %s" % (n, root.split("::")[-1]))
 
 
 def _nth(b, bb, m):
